@@ -1,6 +1,7 @@
 #![allow(dead_code)]
 mod charsets;
 mod dump;
+mod loopranges;
 mod partitions;
 mod regex;
 mod terms;
@@ -53,6 +54,7 @@ fn main() {
         ("drive", "charsets") => charsets::drive(&a),
         ("drive", "partitions") => partitions::drive(&a),
         ("replay", "partitions") => partitions::replay(&a),
+        ("drive", "loopranges") => loopranges::drive(&a),
         ("drive", "c01") => regex::drive_c01(&a),
         ("drive", "c02") => regex::drive_c02(&a),
         ("drive", "c03") => regex::drive_c03(&a),
